@@ -136,12 +136,20 @@ class Ctx:
         self.extra = {}
         self.inconclusive = []
         self.noise = False
+        self._toggle = False
         self._sample_every = 1
         self._sample_seen = 0
 
     # --- reporting -------------------------------------------------------------
     def case(self, n=1):
         self.evaluations += n
+        # the logging configuration of the process alternates while a shard runs (see configure_process):
+        # blocks of cases with the rv loggers at DEBUG and a formatting handler, blocks with logging off
+        self._ticks = getattr(self, "_ticks", 0) + 1
+        if self._toggle and self._ticks % 6 == 0:
+            set_process_mode("debug" if PROCESS_MODE["mode"] == "off" else "off")
+            self.extra.setdefault("process_config", {})
+            self.extra["process_config"]["switches between DEBUG logging and logging off"] = self.extra["process_config"].get("switches between DEBUG logging and logging off", 0) + 1
 
     def label(self, *names):
         for n in names:
@@ -183,6 +191,7 @@ class Ctx:
                 "key": violation.key,
                 "detail": str(violation.detail)[:2000],
                 "recipe": jsonable(recipe),
+                "process_config": PROCESS_MODE["mode"],
             }
         )
         return True
@@ -394,28 +403,39 @@ def machine_violation(machine, v):
 # Parent side
 
 
-def configure_process(shard):
-    """How the process around the library is configured is not the library's business: every third
-    shard runs with the "rv" loggers at DEBUG and a handler that formats every record (what an
-    application does while debugging), the others with logging switched off.  Returns a description."""
+PROCESS_MODE = {"mode": "off"}
+
+
+def set_process_mode(mode):
+    """"debug": rv loggers at DEBUG with a handler that formats every record; "off": logging disabled."""
     import logging
 
     lg = logging.getLogger("rv")
-    if shard % 3 == 1:
+    if mode == "debug":
         class H(logging.Handler):
-            n = 0
-
             def emit(self, record):
-                H.n += 1
                 record.getMessage()
 
         logging.disable(logging.NOTSET)
         lg.handlers[:] = [H(level=logging.DEBUG)]
         lg.setLevel(logging.DEBUG)
         lg.propagate = False
-        return "rv loggers at DEBUG with a formatting handler"
-    logging.disable(logging.CRITICAL)
-    return "logging disabled"
+    else:
+        logging.disable(logging.CRITICAL)
+    PROCESS_MODE["mode"] = mode
+
+
+def configure_process(shard):
+    """How the process around the library is configured is not the library's business: every third
+    shard runs with the "rv" loggers at DEBUG and a handler that formats every record (what an
+    application does while debugging), the others with logging switched off.  Returns a description."""
+    import logging
+
+    if shard % 3 == 1:
+        set_process_mode("debug")
+        return "starts with the rv loggers at DEBUG and a formatting handler"
+    set_process_mode("off")
+    return "starts with logging disabled"
 
 
 def _worker(args):
@@ -429,6 +449,7 @@ def _worker(args):
         mod = importlib.import_module(modname)
         reset_globals()
         ctx.extra["process_config"] = {configure_process(shard): 1}
+        ctx._toggle = True
         owner = importlib.import_module("checks." + prop.lower())
         if getattr(owner, "NOISE", True):
             # observations a check wants from a process in which nothing has happened yet
@@ -543,6 +564,7 @@ def main(argv=None):
         ctx = Ctx(prop, tier, seed, 0, 1, [])
         try:
             reset_globals()
+            set_process_mode(doc.get("process_config") or "off")
             mod.replay(ctx, doc)
         except PropertyViolation as v:
             ctx.fail(v, doc.get("recipe"))
@@ -708,6 +730,7 @@ def main(argv=None):
                         "key": f_["key"],
                         "detail": f_["detail"],
                         "recipe": f_["recipe"],
+                        "process_config": f_.get("process_config", "off"),
                         "seed": seed,
                         "tier": tier,
                     },
